@@ -39,10 +39,13 @@ type Query struct {
 }
 
 type cellReq struct {
-	Arr  string // base array variable
-	Idx  string // printed index term
-	ElW  int
+	Arr string // base array variable
+	Idx string // declared constant equal to the index term
+	Val string // declared constant standing for select(Arr, Idx)
+	ElW int
 }
+
+const maxAckCells = 400
 
 func (c *Ctx) BuildQuery(asserts []*Term) *Query {
 	var sb strings.Builder
@@ -79,7 +82,6 @@ func (c *Ctx) BuildQuery(asserts []*Term) *Query {
 		visit(a)
 	}
 	q := &Query{Nodes: len(order), Decl: map[string]bool{}}
-	cellSeen := map[string]bool{}
 	name := func(t *Term) string {
 		switch t.Op {
 		case OConst:
@@ -90,6 +92,9 @@ func (c *Ctx) BuildQuery(asserts []*Term) *Query {
 		return "t" + strconv.Itoa(int(t.ID))
 	}
 	ufs := map[string]bool{}
+	var lets strings.Builder
+	nlets := 0
+	var cellEqs []string
 	for _, t := range order {
 		switch t.Op {
 		case OConst:
@@ -111,57 +116,80 @@ func (c *Ctx) BuildQuery(asserts []*Term) *Query {
 				fmt.Fprintf(&sb, ") %s)\n", t.Sort)
 			}
 		}
-		if t.Op == OSelect {
-			for _, base := range baseArrays(t.A[0]) {
-				k := base.Name + "@" + name(t.A[1])
-				if !cellSeen[k] && len(q.Cells) < 4000 {
-					cellSeen[k] = true
-					q.Cells = append(q.Cells, cellReq{Arr: base.Name, Idx: name(t.A[1]), ElW: base.Sort.W})
-				}
-			}
+		if t.Op == OSelect && t.A[0].Op == OVar && len(q.Cells) < maxAckCells {
+			// Ackermann-style array elimination: select(A, idx) becomes a fresh constant; functional
+			// consistency constraints are added below.
+			k := len(q.Cells)
+			cn := fmt.Sprintf("|vx.cell.%d|", k)
+			vn := fmt.Sprintf("|vx.cellval.%d|", k)
+			fmt.Fprintf(&sb, "(declare-fun %s () %s)\n(declare-fun %s () %s)\n", cn, t.A[1].Sort, vn, t.Sort)
+			cellEqs = append(cellEqs, fmt.Sprintf("(= %s %s)", cn, name(t.A[1])))
+			q.Cells = append(q.Cells, cellReq{Arr: t.A[0].Name, Idx: cn, Val: vn, ElW: t.Sort.W})
+			fmt.Fprintf(&lets, "(let ((t%d %s))\n", t.ID, vn)
+			nlets++
+			continue
 		}
-		fmt.Fprintf(&sb, "(define-fun t%d () %s ", t.ID, t.Sort)
+		fmt.Fprintf(&lets, "(let ((t%d ", t.ID)
+		nlets++
+		sb2 := &lets
 		switch t.Op {
 		case OExtract:
-			fmt.Fprintf(&sb, "((_ extract %d %d) %s)", t.K>>8, t.K&255, name(t.A[0]))
+			fmt.Fprintf(sb2, "((_ extract %d %d) %s)", t.K>>8, t.K&255, name(t.A[0]))
 		case OZeroExt:
-			fmt.Fprintf(&sb, "((_ zero_extend %d) %s)", t.K, name(t.A[0]))
+			fmt.Fprintf(sb2, "((_ zero_extend %d) %s)", t.K, name(t.A[0]))
 		case OSignExt:
-			fmt.Fprintf(&sb, "((_ sign_extend %d) %s)", t.K, name(t.A[0]))
+			fmt.Fprintf(sb2, "((_ sign_extend %d) %s)", t.K, name(t.A[0]))
 		case OConstArr:
-			fmt.Fprintf(&sb, "((as const %s) %s)", t.Sort, name(t.A[0]))
+			fmt.Fprintf(sb2, "((as const %s) %s)", t.Sort, name(t.A[0]))
 		case OApply:
-			fmt.Fprintf(&sb, "(|%s|", t.Name)
+			fmt.Fprintf(sb2, "(|%s|", t.Name)
 			for _, a := range t.A {
-				sb.WriteString(" " + name(a))
+				sb2.WriteString(" " + name(a))
 			}
-			sb.WriteString(")")
+			sb2.WriteString(")")
 		case OFpFromBits:
-			fmt.Fprintf(&sb, "((_ to_fp 11 53) %s)", name(t.A[0]))
+			fmt.Fprintf(sb2, "((_ to_fp 11 53) %s)", name(t.A[0]))
 		case OFpFromSInt:
-			fmt.Fprintf(&sb, "((_ to_fp 11 53) RNE %s)", name(t.A[0]))
+			fmt.Fprintf(sb2, "((_ to_fp 11 53) RNE %s)", name(t.A[0]))
 		case OFpFromUInt:
-			fmt.Fprintf(&sb, "((_ to_fp_unsigned 11 53) RNE %s)", name(t.A[0]))
+			fmt.Fprintf(sb2, "((_ to_fp_unsigned 11 53) RNE %s)", name(t.A[0]))
 		case OFpToSInt:
-			fmt.Fprintf(&sb, "((_ fp.to_sbv %d) RTZ %s)", t.K, name(t.A[0]))
+			fmt.Fprintf(sb2, "((_ fp.to_sbv %d) RTZ %s)", t.K, name(t.A[0]))
 		case OFpToUInt:
-			fmt.Fprintf(&sb, "((_ fp.to_ubv %d) RTZ %s)", t.K, name(t.A[0]))
+			fmt.Fprintf(sb2, "((_ fp.to_ubv %d) RTZ %s)", t.K, name(t.A[0]))
 		default:
 			on, ok := opNames[t.Op]
 			if !ok {
 				panic(fmt.Sprintf("print: op %d", t.Op))
 			}
-			sb.WriteString("(" + on)
+			sb2.WriteString("(" + on)
 			for _, a := range t.A {
-				sb.WriteString(" " + name(a))
+				sb2.WriteString(" " + name(a))
 			}
-			sb.WriteString(")")
+			sb2.WriteString(")")
 		}
-		sb.WriteString(")\n")
+		lets.WriteString("))\n")
 	}
+	for i := range q.Cells {
+		for j := i + 1; j < len(q.Cells); j++ {
+			if q.Cells[i].Arr == q.Cells[j].Arr {
+				cellEqs = append(cellEqs, fmt.Sprintf("(=> (= %s %s) (= %s %s))", q.Cells[i].Idx, q.Cells[j].Idx, q.Cells[i].Val, q.Cells[j].Val))
+			}
+		}
+	}
+	// arrays that are only ever read through eliminated selects need no declaration; harmless if kept
+	sb.WriteString("(assert ")
+	sb.WriteString(lets.String())
+	sb.WriteString("(and true")
 	for _, a := range asserts {
-		fmt.Fprintf(&sb, "(assert %s)\n", name(a))
+		sb.WriteString(" " + name(a))
 	}
+	for _, e := range cellEqs {
+		sb.WriteString(" " + e)
+	}
+	sb.WriteString(")")
+	sb.WriteString(strings.Repeat(")", nlets))
+	sb.WriteString(")\n")
 	q.Text = sb.String()
 	return q
 }
@@ -347,7 +375,7 @@ func (s *Solver) Solve(q *Query, timeoutSec int, wantModel bool) (*SolveResult, 
 		var gb strings.Builder
 		gb.WriteString("(get-value (")
 		for _, cq := range q.Cells {
-			fmt.Fprintf(&gb, "%s (select |%s| %s) ", cq.Idx, cq.Arr, cq.Idx)
+			fmt.Fprintf(&gb, "%s %s ", cq.Idx, cq.Val)
 		}
 		gb.WriteString("))\n")
 		fmt.Fprintf(&gb, "(echo \"%s\")\n", mk3)
